@@ -386,8 +386,8 @@ ASMJIT_FAVOR_SIZE Error init_func_detail(FuncDetail& func, const FuncSignature& 
 
             if (TypeUtils::is_float(type_id)) {
               // If this is a float, but `kFlagPassFloatsByVec` is false, we have to use stack instead. This should
-              // be only used by 32-bit calling conventions.
-              if (!cc.has_flag(CallConvFlags::kPassFloatsByVec)) {
+              // be only used by 32-bit calling conventions. An 80-bit float (class X87) is always passed in memory.
+              if (!cc.has_flag(CallConvFlags::kPassFloatsByVec) || type_id == TypeId::kFloat80) {
                 reg_id = Reg::kIdBad;
               }
             }
@@ -407,6 +407,10 @@ ASMJIT_FAVOR_SIZE Error init_func_detail(FuncDetail& func, const FuncSignature& 
             }
             else {
               uint32_t size = Support::max<uint32_t>(TypeUtils::size_of(type_id), register_size);
+              if (type_id == TypeId::kFloat80) {
+                // 'long double' occupies 12 bytes (4-byte aligned) in 32-bit mode and 16 bytes (16-byte aligned) in 64-bit mode.
+                size = register_size == 8 ? 16u : 12u;
+              }
               if (size >= 16) {
                 stack_offset = Support::align_up(stack_offset, size);
               }
